@@ -281,9 +281,11 @@ PROPS = {
                 "strict non-empty subset of the connected clients; distinct = hash(history, client specs); leave requests by users who are not members of the chat (never were, only invited, left already) must not change the membership: the next line by a member reaches every member; clients come in pairs that are two sessions of one account, and an administrator changes an account's read/send/open-chat privileges by set-user while its sessions are connected (the audience follows the account, for every session); requests naming a chat the server does not know (set-subject, send, join, leave, decline) reach nobody and do not disturb later chat traffic (a wedged chat manager is reported by the real-time watchdog); restart action: the server is rebuilt from its files, every session and chat is gone and the accounts carry the chat privileges the files say",
         "assumptions": ["presence notifications (301/302) are ignored here (C13)", "refuse-private-chat option stays off (C13)", "only members send to / act on a chat; unknown chat ids are hostile input (C03)"],
         "quick": {"runs": [{"test": "^TestC12$", "shards": 10, "checks": 100, "timeout": 600},
-                           {"test": "^TestC12Burst$", "shards": 6, "checks": 25, "timeout": 600}]},
+                           {"test": "^TestC12Burst$", "shards": 6, "checks": 25, "timeout": 600},
+                           {"test": "^TestC12ManyChats$", "shards": 2, "checks": 2, "timeout": 900}]},
         "thorough": {"runs": [{"test": "^TestC12$", "shards": 16, "checks": 2500, "timeout": 3400, "group": 0},
-                              {"test": "^TestC12Burst$", "shards": 16, "checks": 400, "timeout": 3400, "group": 1}]},
+                              {"test": "^TestC12Burst$", "shards": 16, "checks": 400, "timeout": 3400, "group": 1},
+                              {"test": "^TestC12ManyChats$", "shards": 4, "checks": 15, "timeout": 3000}]},
     },
     "C13": {
         "title": "Presence converges and user IDs address one live user",
@@ -489,7 +491,7 @@ _LATER = {
     "C09": "a download of the name while the upload is partial (must not serve the partial under the final name); info forks without the comment-size word; TestC09HugeAnnounced: announced data-fork sizes of 2^31..2^32-1 with a stream that ends early: no file under the final name, the partial holds a prefix; between cut and resume a move request for the unfinished entry: whether the server leaves it or takes the partial data along, the name is not published and the upload goes on where the partial data is; slow writers: 2 / 11 / 45 fake seconds pass between the segments of the client's stream",
     "C10": "download trees are decorated with stored resource / info side files, aliases and leftovers of interrupted uploads (X.incomplete): each item's bytes must match its own header and names arrive unchanged; PreserveResourceForks drawn in downloads; after preserve uploads the stored forks are checked; a third of the decorated files have an information fork only (what set-comment leaves behind): three forks with an empty resource fork are announced and the rest of the tree must still arrive; one name in fifteen is padded to 200-244 bytes (files; the .incomplete suffix must still fit the file system) or 244-255 bytes (folders)",
     "C11": "comments of 33 000 / 60 000 bytes; every fourth listed file is downloaded through to its bytes; TestC11BigSizes: sparse files of 2^24..2^32-1 bytes, list == get-info == download reply == size on disk; TestC11WideFolder: folders of 65 536 / 65 537 / 65 540 visible entries plus hidden ones are listed with their entry count; create-folder requests whose path names a folder that is not there: nothing appears on disk",
-    "C12": "restarts (chats are gone afterwards), invitations by non-members, the refuse-private-chat preference (decline notice names the decliner, never addressed to chat 0), names containing %, unknown chat ids other than 0",
+    "C12": "restarts (chats are gone afterwards), invitations by non-members, the refuse-private-chat preference (decline notice names the decliner, never addressed to chat 0), names containing %, unknown chat ids other than 0; users take another name in mid-session (with or without the options field) and speak under it; TestC12ManyChats: private chats are opened until the server hands out an id whose low or high half is zero (up to 300 000; non-trivial = found): a line said there reaches the member, with that chat id, and no connected non-member",
     "C13": "set-user edits of an account whose user is connected (disconnect / same / other name), followed by the same presence comparison",
     "C14": "latecomers who log in while the plan runs (agreements of several sizes), a 300-article news listing, requests naming unknown chats sent by a connection of their own; TestC14Stalled: the stalled clients start reading again after 1 s .. 10 min of fake time and must receive whole transactions only, every queued broadcast at most once; disconnect requests naming user ids nobody has (with and without ban option), sent by the stranger connection; request ids 0, 0xFFFFFFFF and 0x80000000 (each at most once per client)",
     "C15": "passwords of 73 / 100 / 255 bytes (bcrypt's limit is 72), names of 300 / 500 / 2000 bytes, new-user over a file that another login's record occupies; no two accounts may share a stored password hash (also the password-less ones); the administrator edits the name of the account it is logged in with and asks for it: get-user, list-users and the file show the new name; TestC15OperatorFile: the account lives in a file that is not named after its login (six file-name patterns sorting before and after <login>.yaml); 1-4 operations out of edit / password change / rename / delete / restart, and after each the listing, a fresh manager and login attempts with every password must agree with the model; TestC15ManyAccounts: 254-513 accounts exist as files at start-up (plus 0-3 made through the protocol): the listing shows each once, a sample logs in; TestC15OperatorFile also gives the login of a deleted account to a new one",
